@@ -52,4 +52,11 @@ PROPS = {
         assumptions=["M-SCAN (scanner contract, validated on every run by diff-newlines and oracle-C04, not proved): the generated DFA executes new_line at every CR/LF offset it reads, reads offsets without skipping, and consecutive tokens satisfy ts_next = te_prev",
                      "which rule fires for which bytes (token ids, trivia classification) is a property of the 531 generated states: explored by the oracle, no theorem"],
     ),
+    "C06": dict(
+        components=["facts", "grammar-php7", "grammar-php5"],
+        lean=["PhpVerif.Props.C06"],
+        diffs=[], oracle="C06", level="proof",
+        assumptions=["that the LALR automaton reports an error for every non-sentence is goyacc's table construction (trusted); the theorem supplies the class of inputs that are provably non-sentences (bracket counts)",
+                     "ordering of errors and the shape of parser errors are explored by the oracle on the real code"],
+    ),
 }
